@@ -409,3 +409,68 @@ func genSequences(c *vlib.Ctx) {
 		}
 	}
 }
+
+// ---------------------------------------------------------------------------
+// the publisher's handler is removed between syncs (RemoveHandler, idle cleaner): the
+// latest sync -- the stop point of the next sync -- must survive
+
+func genRemoval(c *vlib.Ctx) {
+	w, ch := adWorld(6)
+	ad := func(h int) CallJ { return CallJ{T: "ad", PubHead: h} }
+	rm := CallJ{T: "remove"}
+	idle := CallJ{T: "idle"}
+	for _, seg := range []int64{-1, 2} {
+		for _, first := range []int64{0, 2} {
+			for a := 1; a <= 3; a++ {
+				for _, b := range []int{a + 1, a + 2, 6} {
+					cfg := defaultCfg
+					cfg.SegDepth, cfg.FirstDepth = seg, first
+					runScn(c, Scn{World: w, Cfg: cfg, Oracle: "adseq", Chain: ch, Calls: []CallJ{ad(a), rm, ad(b), rm, rm, ad(6), ad(6)}}, false)
+					runScn(c, Scn{World: w, Cfg: cfg, Oracle: "adseq", Chain: ch, Calls: []CallJ{rm, ad(a), ad(b), rm, {T: "ad", PubHead: 6, Resync: true}, rm, ad(6)}}, false)
+					// the same history without the removals: the same outcomes
+					runScn(c, Scn{World: w, Cfg: cfg, Oracle: "adseq", Chain: ch, Calls: []CallJ{ad(a), ad(b), ad(6), ad(6)}}, false)
+				}
+			}
+		}
+	}
+	// with a preset latest sync and with WithLastKnownSync as the source of the stop point
+	for _, lk := range []int{0, 2} {
+		for _, latest := range []int{0, 1, 3} {
+			cfg := defaultCfg
+			cfg.LastKnown = lk
+			runScn(c, Scn{World: w, Cfg: cfg, Latest: latest, Oracle: "adseq", Chain: ch, Calls: []CallJ{rm, ad(4), rm, ad(6)}}, false)
+			runScn(c, Scn{World: w, Cfg: cfg, Latest: latest, Oracle: "adseq", Chain: ch, Calls: []CallJ{ad(4), rm, {T: "ad", PubHead: 5, Resync: true}, rm, ad(6)}}, false)
+		}
+	}
+	// the idle cleaner (IdleHandlerTTL 60 ms; each idle step sleeps 210 ms)
+	n := c.Pick(6, 30)
+	for i := 0; i < n; i++ {
+		cfg := defaultCfg
+		cfg.IdleTTLms = 60
+		cfg.SegDepth = []int64{-1, 2}[i%2]
+		cfg.LastKnown = []int{0, 0, 1}[i%3]
+		a := 1 + i%3
+		runScn(c, Scn{World: w, Cfg: cfg, Oracle: "adseq", Chain: ch, Calls: []CallJ{ad(a + 1), idle, ad(a + 3), idle, ad(6)}}, false)
+	}
+}
+
+// WithLastKnownSync in the decision table: the stop point when nothing is recorded yet
+func genLastKnown(c *vlib.Ctx) {
+	w, ch := adWorld(4)
+	for _, lk := range []int{1, 2, 4, syncdrv.ForeignRank} {
+		for _, latest := range []int{0, 3} {
+			for _, stop := range []int{0, 1} {
+				for _, resync := range []bool{false, true} {
+					for _, first := range []int64{0, 1} {
+						for _, seg := range []int64{-1, 1} {
+							cfg := defaultCfg
+							cfg.LastKnown, cfg.FirstDepth, cfg.SegDepth = lk, first, seg
+							runScn(c, Scn{World: w, Cfg: cfg, Latest: latest, Oracle: "adchain", Chain: ch,
+								Calls: []CallJ{{T: "ad", Stop: stop, Resync: resync, PubHead: 4}}}, false)
+						}
+					}
+				}
+			}
+		}
+	}
+}
